@@ -279,7 +279,7 @@ def tag_universe():
         import warnings
         abstract = ('AST', 'boolop', 'cmpop', 'excepthandler', 'expr', 'expr_context', 'mod', 'operator', 'pattern', 'slice', 'stmt',
                     'type_ignore', 'type_param', 'unaryop')
-        deprecated = ('Num', 'Str', 'Bytes', 'NameConstant', 'Ellipsis', 'Index', 'ExtSlice', 'Suite', 'Param', 'AugLoad', 'AugStore')
+        deprecated = ('_ast_Ellipsis', 'Num', 'Str', 'Bytes', 'NameConstant', 'Ellipsis', 'Index', 'ExtSlice', 'Suite', 'Param', 'AugLoad', 'AugStore')
         names = []
         with warnings.catch_warnings():
             warnings.simplefilter('ignore')
@@ -382,6 +382,7 @@ class PathCtx(object):
         self.solver = z3.Solver()
         self.solver.set('timeout', TIMEOUT_MS)
         self.pc = []
+        self.pc_kind = []
         self.heap = {}
         self.next_id = 0
         self.fresh_n = {}
@@ -424,12 +425,13 @@ class PathCtx(object):
         return o
 
     # -- path condition ---------------------------------------------------------------------------------------------------
-    def assume(self, cond):
+    def assume(self, cond, kind='assume'):
         if cond is True:
             return
         if cond is False:
             raise Infeasible()
         self.pc.append(cond)
+        self.pc_kind.append(kind)
         self.solver.add(cond)
 
     def feasible(self, cond):
@@ -449,22 +451,22 @@ class PathCtx(object):
         if idx < len(self.prefix):
             d = self.prefix[idx]
             self.decisions.append(d)
-            self.assume(cond if d else z3.Not(cond))
+            self.assume(cond if d else z3.Not(cond), 'branch')
             return d
         t = self.feasible(cond)
         f = self.feasible(z3.Not(cond))
         if t and f:
             self.explorer.push(self.decisions + [False])
             self.decisions.append(True)
-            self.assume(cond)
+            self.assume(cond, 'branch')
             return True
         if t:
             self.decisions.append(True)
-            self.assume(cond)
+            self.assume(cond, 'branch')
             return True
         if f:
             self.decisions.append(False)
-            self.assume(z3.Not(cond))
+            self.assume(z3.Not(cond), 'branch')
             return False
         raise Infeasible()
 
